@@ -659,7 +659,25 @@ let run_case (prof : profile) (line : string) : string =
               (match M3.connect_decode_with_protocol pr TEof rest2 with
                | ROk (c, r) -> ("ok v3 " ^ show3 (M3.Connect c), used r)
                | RErr e -> ("err " ^ serr e, "?") | RPanic _ -> ("PANIC", "?")))) in
-    Printf.sprintf "%s;resume=%s;rused=%s" first (fst resume) (snd resume)
+    let wrong =
+      match VarInt.decode_raw_header TEof d with
+      | RErr e -> "err " ^ serr e | RPanic _ -> "PANIC"
+      | ROk ((b, rl), rest) ->
+        (match Types.protocol_decode TEof rest with
+         | RErr e -> "err " ^ serr e | RPanic _ -> "PANIC"
+         | ROk (pr, rest2) ->
+           (match pr with
+            | V500 ->
+              (match M3.connect_decode_with_protocol pr TEof rest2 with
+               | ROk (c, _) -> "ok v3 " ^ show3 (M3.Connect c)
+               | RErr e -> "err " ^ serr e | RPanic _ -> "PANIC")
+            | _ ->
+              (match M5.header_new_with b rl with
+               | Ok h -> (match M5.connect_decode_with_protocol h pr TEof rest2 with
+                   | ROk (c, _) -> "ok v5 " ^ show5 (M5.Connect c)
+                   | RErr e -> "err " ^ serr e | RPanic _ -> "PANIC")
+               | Err e -> "err " ^ serr e | Panic _ -> "PANIC"))) in
+    Printf.sprintf "%s;resume=%s;rused=%s;wrong=%s" first (fst resume) (snd resume) wrong
   | "digest" ->
     let fam = next t in
     let d = hex t in
